@@ -570,8 +570,11 @@ class DBOSRuntime(Runtime):
 
         async def _run_workflow() -> WorkflowHandleAsync[Any]:
             with SetWorkflowID(run_id):
-                # Write initial state to DB before starting workflow (non-blocking to caller)
-                if serialized_state:
+                # Write initial state to DB before starting workflow (non-blocking to caller).
+                # Only a payload that carries state (InMemoryStateStore.to_dict()) is
+                # written: a SQL store's to_dict() is a reference to the row this run_id
+                # already owns, and "restoring" it would overwrite that row with an empty state.
+                if serialized_state and "state_data" in serialized_state:
                     if self._dsn is not None:
                         pool = await self._ensure_pool()
                         store: StateStore[Any] = PostgresStateStore(
